@@ -1,10 +1,12 @@
 import Feox.Props.C03
+import Feox.Fmt.JournalOpen
 import Feox.Fmt.Commit
 import Feox.Fmt.ScanOk
 import Feox.Fmt.Replay
 import Feox.Fmt.Batch
 import Feox.Fmt.ReplayRuns
 import Feox.Proto.Slots
+import Feox.Fmt.ReplayOpen
 /-!
 # C03 (continued) — the two transactions of the device protocol, on the bytes
 
@@ -134,5 +136,33 @@ theorem batch_commit_on_bytes {v lo total : Nat} {info : Gen → RecMeta} (ws : 
       ∀ (o : Opts) (journal : List (Nat × Nat)) (st : ScanSt), o.readOnly = false →
         GoodOutcome info L' st (scan (applyWrites v info img ws) v total o journal lo st) :=
   commit_batch ws img d L hrep ht htot hok hdisj
+
+/-- **Opening a crashed device, with the device writes the open really issues.**  The intent journal
+`extents` was durable over the tiled image `img0`; its coalesced runs are whole tiles inside the data
+area; the crash left *anything* inside the runs and anything in the journal / metadata blocks.  The
+replay `recoverImage` performs (`replayIo`: chunked marker writes, fsync, journal clear, fsync) followed
+by the scan succeeds, and the table it builds is the newest-wins fold over exactly the records of the
+old tiling that lie outside the journalled runs — no record outside a journalled run is lost, none
+inside one is resurrected. -/
+theorem crashed_open_replays_then_scans {v size : Nat} {info : Gen → RecMeta} (hd0 : 0 < size) (h64 : size / Fsm.BS < 2 ^ 64)
+    (hds : FEOX_DATA_START_BLOCK ≤ size / Fsm.BS)
+    (extents co : List (Nat × Nat)) (p p1 : JPos) (io1 : List IoEv) (img0 img : Image) (d0 : Disk) (L : List Rec) (o : Opts)
+    (hro : o.readOnly = false)
+    (hne : extents.isEmpty = false) (hco : coalesceExtents extents = some co) (hio : replayIo p extents = .ok (io1, p1))
+    (hrep : Rep img0 v FEOX_DATA_START_BLOCK (size / Fsm.BS) info d0) (ht : TiledBy d0 (size / Fsm.BS) L FEOX_DATA_START_BLOCK)
+    (htot0 : size / Fsm.BS ≤ img0.size) (htot : size / Fsm.BS ≤ img.size)
+    (hruns : ∀ r ∈ co, 0 < r.2 ∧ FEOX_DATA_START_BLOCK ≤ r.1 ∧ r.1 + r.2 ≤ size / Fsm.BS ∧ Aligned L r.1 (r.1 + r.2))
+    (hdisj : co.Pairwise (fun a b => a.1 + a.2 ≤ b.1 ∨ b.1 + b.2 ≤ a.1))
+    (hagree : ∀ q, FEOX_DATA_START_BLOCK ≤ q → ¬ inRuns (co.map toRun) q → blockAt img q = blockAt img0 q) :
+    ∃ st, scan (applyIo img io1) v (size / Fsm.BS) o extents FEOX_DATA_START_BLOCK { fsm := Fsm.setDeviceSize Fsm.new size } = .ok st ∧
+      st.live = (filterRuns L (co.map toRun)).foldl (fun lv r => absorbLive lv (liveOf info r)) [] := by
+  obtain ⟨hrepF, htF, hgo⟩ := replay_open_on_bytes h64 extents co p p1 io1 img0 img d0 L hne hco hio hrep ht htot0 htot hruns hdisj hagree
+  obtain ⟨st, hscan, _⟩ := scan_rep_tiled_ok (o := o) (journal := extents) hro hrepF hd0 rfl h64
+    (size / Fsm.BS - FEOX_DATA_START_BLOCK) FEOX_DATA_START_BLOCK _ { fsm := Fsm.setDeviceSize Fsm.new size }
+    (Nat.le_refl _) (Nat.le_refl _) htF (scanInv_init size (size / Fsm.BS) hds)
+  have h := hgo o extents { fsm := Fsm.setDeviceSize Fsm.new size } hro
+  rw [hscan] at h
+  simp only [GoodOutcome] at h
+  exact ⟨st, hscan, by simpa using h.2⟩
 
 end Feox.C03
